@@ -20,7 +20,7 @@ COMPONENTS = {"real": ["ECAgent.Core.Model.complete/is_running/__bool__/execute"
               "stub": ["System.execute bodies are harness recorders; the completer calls model.complete() when scripted"]}
 PROBES = ["completer_first", "completer_middle", "completer_last", "complete_outside", "complete_at_t0",
           "multi_step_spans_completion", "throw_error_raised", "add_after_complete", "remove_after_complete",
-          "due_system_skipped", "completer_raises_after_complete"]
+          "due_system_skipped", "completer_raises_after_complete", "system_bound_to_another_model"]
 TECHNIQUE = "deterministic simulation: complete() injected as a cancellation at every schedule point, then a seeded request tail with a 'nothing moves' oracle"
 LEVEL_TEXT = ("Seeded search over the completion point (queue position x timestep, inside multi-step requests, from outside) "
               "and over the later request history; checks that nothing executes after the completing system, that the clock, "
@@ -37,7 +37,7 @@ def generate(rng, tier):
     horizon = rng.randint(1, 20 if tier == "thorough" else 12)
     systems = []
     for i in range(n):
-        s = {"id": f"s{i}", "prio": gen_prio(rng)}
+        s = {"id": f"s{i}", "prio": gen_prio(rng), "foreign": rng.random() < 0.1}
         s.update(gen_window(rng, horizon, always=0.75))
         systems.append(s)
     tc = rng.choice([0, 0, rng.randint(0, horizon)])
@@ -113,12 +113,16 @@ def execute(sc, ctx):
     w = World(sc, ctx, m)
     ref = RefSched()
     sm = m.systems
+    other = Model(seed=99)
     objs = {}
     for spec in sc["systems"]:
         spec = spec_defaults(spec)
         if ref.has(spec["id"]) or spec["freq"] < 1:
             continue
-        objs[spec["id"]] = Rec(spec, m, w)
+        # a "foreign" system was constructed for another, still running model but is registered here (a shared observer)
+        objs[spec["id"]] = Rec(spec, other if spec.get("foreign") else m, w)
+        if spec.get("foreign"):
+            ctx.probe("system_bound_to_another_model")
         ctx.expect_ok("setup-add", sm.add_system, objs[spec["id"]])
         ref.add(spec)
     done = False
